@@ -10,7 +10,7 @@ import sys
 from abc import ABCMeta, abstractmethod
 from contextlib import contextmanager
 from types import CodeType, FrameType, FunctionType, MethodType
-from typing import Any, Callable, Dict, Iterator, Optional, Union, cast
+from typing import Any, Callable, Dict, Iterator, Optional, Tuple, Union, cast
 
 import opcode
 
@@ -251,18 +251,20 @@ class CallTracer:
         # A private generator: drawing from the global one would change the random numbers
         # the traced program itself gets.
         self._random = random.Random()
-        self.cache: Dict[Any, Optional[Callable[..., Any]]] = {}
+        self.cache: Dict[int, Tuple[CodeType, Optional[Callable[..., Any]]]] = {}
         self.should_trace = code_filter
         self.max_typed_dict_size = max_typed_dict_size
 
     def _get_func(self, frame: FrameType) -> Optional[Callable[..., Any]]:
         code = frame.f_code
-        # Code objects that differ only in their file name compare equal (identical functions in
-        # two modules), so the file name is part of the key.
-        key = (code.co_filename, code)
-        if key not in self.cache:
-            self.cache[key] = get_func(frame)
-        return self.cache[key]
+        # Keyed by identity: the code objects of identical functions compare (and hash) equal -
+        # two modules with the same source, or one file loaded both as __main__ and under its
+        # module name - but each belongs to its own function. The entry keeps the code object
+        # alive, so its id cannot be reused by another one.
+        entry = self.cache.get(id(code))
+        if entry is None:
+            entry = self.cache[id(code)] = (code, get_func(frame))
+        return entry[1]
 
     def handle_call(self, frame: FrameType) -> None:
         # I can't figure out a way to access the value sent to a generator via
